@@ -399,8 +399,23 @@ Definition run_print_decl (args : list N) : list N :=
   end.
 
 
+(* 82: the variable-declaration loop: n, then tokens *)
+Definition run_parse_decls (args : list N) : list N :=
+  match args with
+  | n :: r =>
+      let toks := dec_tks r in
+      match parse_decls (N.to_nat n) (4 * length toks + 8) toks with
+      | DOk (l, rest) =>
+          0 :: nlen rest :: nlen l ::
+            flat_map (fun p => let e := enc_ty (snd p) in fst p :: nlen e :: e) l
+      | DErr e => [1; e]
+      end
+  | [] => [1; 0]
+  end.
+
 Definition run_case (cmd : N) (args : list N) : list N :=
   match cmd, args with
+  | 82, _ => run_parse_decls args
   | 81, _ => run_print_decl args
   | 80, _ => run_parse_var args
   | 70, _ => run_fold args
